@@ -5,7 +5,17 @@
    about to be consumed), any number of silent RHop / RFire / RDrop steps -- TLC searches the
    interleavings of the deferred cache fills -- and RFinish, which consumes the event and compares
    result and cache.  With Devs = {} the cache is compared per NAME (the ideal model has one entry
-   per name); with Dev_C29_PublishCacheKey the as-built keys are compared literally.           *)
+   per name); with Dev_C29_PublishCacheKey the as-built keys are compared literally.
+   Concurrent publishes are logged at their linearization points by the harness' datastore / value
+   store wrappers: PBegin (call started), PRead (datastore Get of the last record), PWrite
+   (datastore Put), PRoute (value-store Put and its outcome), PEnd (call returned), PQuiet (all
+   calls ended: both stores).  What is OBSERVABLE of a call's critical section are its store
+   operations, so the log is matched against the behaviours of Namesys in which a call reads the last
+   record and stores (or refuses) in adjacent steps: a PWrite event = PRead;PWrite of the model, i.e.
+   the record put must be the one the sequence rule yields for the last record AT THE TIME OF THE PUT
+   (a publisher that decided on a stale read puts a different record, or puts where it had to refuse);
+   the refusal of an explicit sequence number has no store operation: PRead;PReject is a silent step
+   somewhere between the call's PBegin and PEnd.  PRead events only confirm the datastore content.  *)
 EXTENDS Namesys
 
 Trace == ndJsonDeserialize("trace.ndjson")
@@ -28,11 +38,13 @@ CacheMatches(c, t, lc) == CacheView(c, t) = Logged(lc)
 
 TInit == /\ l = 1 /\ routing = [n \in Names |-> NoRec] /\ dsrec = [n \in Names |-> NoRec]
          /\ cache = <<>> /\ now = 0 /\ csize = 0 /\ maxttl = -1 /\ rs = Idle /\ last = [op |-> "Init"]
+         /\ pubs = [p \in Procs |-> NoCall] /\ lock = [n \in Names |-> "none"] /\ loose = {}
 
 TReset == /\ IsEvent("Reset")
           /\ routing' = [n \in Names |-> NoRec] /\ dsrec' = [n \in Names |-> NoRec]
           /\ cache' = <<>> /\ now' = 0 /\ csize' = Ev.csize /\ maxttl' = Ev.maxttl
           /\ rs' = Idle /\ last' = [op |-> "Init"]
+          /\ pubs' = [p \in Procs |-> NoCall] /\ lock' = [n \in Names |-> "none"] /\ loose' = {}
 TPublish == /\ IsEvent("Publish") /\ Ev.quiet
             /\ Publish(Ev.n, Ev.v, Ev.ttl, Ev.sq)
             /\ last'.ok = Ev.ok
@@ -51,7 +63,45 @@ TRFinish == /\ IsEvent("Resolve") /\ Ev.quiet
 TTick == /\ IsEvent("Tick") /\ Tick /\ CacheMatches(cache', now', Ev.cache)
 TRestart == /\ IsEvent("Restart") /\ Restart
 
+\* PRead(p) immediately followed by PWrite(p) / PReject(p): two steps of Namesys seen as one
+PReadWrite(p) ==
+  /\ pubs[p].st = "begun" /\ lock[pubs[p].n] = "none"
+  /\ LET c == pubs[p]
+         prev == Prev(c.n)
+         s == SeqChosen(prev, c.v, c.sq)
+     IN /\ ~SeqRejected(prev, c.sq) /\ s <= MaxSeq
+        /\ dsrec' = [dsrec EXCEPT ![c.n] = Rec(c.v, s, c.ttl)]
+        /\ pubs' = [pubs EXCEPT ![p].st = "written", ![p].prev = prev, ![p].rec = Rec(c.v, s, c.ttl)]
+  /\ UNCHANGED <<routing, cache, now, csize, maxttl, rs, last, lock, loose>>
+PReadReject(p) ==
+  /\ pubs[p].st = "begun" /\ lock[pubs[p].n] = "none"
+  /\ SeqRejected(Prev(pubs[p].n), pubs[p].sq)
+  /\ pubs' = [pubs EXCEPT ![p].st = "rejected", ![p].prev = Prev(pubs[p].n), ![p].ok = FALSE]
+  /\ UNCHANGED <<routing, dsrec, cache, now, csize, maxttl, rs, last, lock, loose>>
+
+TPBegin == /\ IsEvent("PBegin") /\ Ev.p \in Procs /\ PBegin(Ev.p, Ev.n, Ev.v, Ev.ttl, Ev.sq)
+TPRead  == /\ IsEvent("PRead") /\ Ev.p \in Procs /\ pubs[Ev.p].n = Ev.n
+           /\ Ev.got = dsrec[Ev.n]
+           /\ UNCHANGED vars
+TPReject == /\ l <= Len(Trace) /\ l' = l /\ \E p \in Procs : PReadReject(p)
+TPWrite == /\ IsEvent("PWrite") /\ Ev.p \in Procs /\ pubs[Ev.p].n = Ev.n
+           /\ PReadWrite(Ev.p)
+           /\ dsrec'[Ev.n] = Ev.rec
+TPRoute == /\ IsEvent("PRoute") /\ Ev.p \in Procs /\ pubs[Ev.p].n = Ev.n
+           /\ Ev.err \in {"", "old"} /\ Ev.acc = (Ev.err = "")
+           /\ pubs[Ev.p].rec = Ev.rec
+           /\ PRoute(Ev.p, Ev.acc)
+           /\ routing'[Ev.n] = Ev.rt
+TPEnd   == /\ IsEvent("PEnd") /\ Ev.p \in Procs
+           /\ pubs[Ev.p].ok = Ev.ok
+           /\ Ev.err = (IF Ev.ok THEN "" ELSE IF pubs[Ev.p].st = "rejected" THEN "seq" ELSE "old")
+           /\ PEnd(Ev.p)
+TPQuiet == /\ IsEvent("PQuiet") /\ Ev.quiet /\ AllIdle
+           /\ routing = Ev.rt /\ dsrec = Ev.ds
+           /\ UNCHANGED vars
+
 TNext == TReset \/ TPublish \/ TRStart \/ TRHop \/ TRFire \/ TRDrop \/ TRFinish \/ TTick \/ TRestart
+         \/ TPBegin \/ TPRead \/ TPReject \/ TPWrite \/ TPRoute \/ TPEnd \/ TPQuiet
 TSpec == TInit /\ [][TNext]_tvars
 
 \* the module's properties, as they apply to a log: a Reset starts a new run (new value store); the
@@ -61,6 +111,9 @@ IsReset == l <= Len(Trace) /\ Trace[l].ev = "Reset"
 TSeqMonotone           == [][IsReset \/ SeqMonotoneAct]_tvars
 TSeqIncrementsOnChange == [][IsReset \/ SeqIncrementsOnChangeAct]_tvars
 TSeqStepsByOne         == [][IsReset \/ SeqStepsByOneAct]_tvars
+TDsSeqMonotone           == [][IsReset \/ DsSeqMonotoneAct]_tvars
+TDsSeqIncrementsOnChange == [][IsReset \/ DsSeqIncrementsOnChangeAct]_tvars
+TDsSeqStepsByOne         == [][IsReset \/ DsSeqStepsByOneAct]_tvars
 TChainResult     == Dev \/ ChainResult
 TRecursionIff    == Dev \/ RecursionErrorIffTooLong
 TReadYourPublish == Dev \/ ReadYourPublish
